@@ -14,6 +14,14 @@ property oracle: an independent python reading of the property text applied to t
                  the library's height-scaled noise model) of the previous raw state; covariance symmetric and
                  positive definite (Cholesky of the full matrix); distance() = y^T S^-1 y; stationary object stays
                  put; vector filter = point filters bit for bit; inverted cost = 100 - direct cost for all probed d.
+
+finding (f32):   without a symmetrisation of the covariance in update(), the rounding difference between P[k][n+k] and
+                 P[n+k][k] is invariant under exact steps and is never damped while height-scaled noise lets the true
+                 entries shrink like h^2: for a box whose height falls by a factor > ~1500 over a history the raw
+                 covariance stops being positive definite (negative velocity variance).  The `deep-shrink` streams
+                 exercise exactly this (x3500, x7700, x1e4, grow-then-shrink); a failure there carries the dedicated key
+                 C07:box:cov-not-spd:deep-shrink.  Model/Kalman.v mirrors the repaired update (msym); in exact arithmetic
+                 msym is the identity on symmetric matrices, so the theorems are the same with and without it.
 """
 import json
 import math
@@ -155,19 +163,6 @@ def shrink_ratio(tr, upto):
         if h > 0:
             best = max(best, hi / h)
     return best
-
-
-def cmp_limit(tr):
-    """number of leading states on which the whole-run model comparison is made (before a deep shrink)"""
-    if tr["ty"] != "box":
-        return len(tr["states"])
-    hi = tr["z0"][4]
-    for k, o in enumerate(tr["ops"]):
-        if o is not None:
-            hi = max(hi, o[4])
-            if o[4] > 0 and hi / o[4] > DEEP_SHRINK:
-                return min(k + 1, len(tr["states"]))
-    return len(tr["states"])
 
 
 def single_spec(tr, nops=None, start=0):
@@ -510,9 +505,8 @@ def compare_run(tr, model, tolm, tolc):
     N = 2 * tr["n"]
     worst_m = worst_c = 0.0
     first = None
-    lim = cmp_limit(tr)
     for k, (mm, mc, _) in enumerate(model):
-        if mm is None or k >= lim:
+        if mm is None:
             continue
         st = tr["states"][k]
         sc = mean_scales(tr, mm)
@@ -645,7 +639,12 @@ def run(chk):
     # ---- panics ------------------------------------------------------------------------------------------
     for t in trajs.values():
         if t["panic"] is not None:
-            violations.append(("C07:panic", "a filter call panicked at step %d (%s) on valid measurements" % t["panic"],
+            key = "C07:panic"
+            if t["ty"] == "box":
+                hs = [unbits(t["z0b"][0])[4]] + [unbits(o[0])[4] for o in t["opsb"][:t["panic"][0]] if o is not None]
+                if max(hs) / max(min(hs), 1e-30) > DEEP_SHRINK:
+                    key += ":deep-shrink"
+            violations.append((key, "a filter call panicked at step %d (%s) on valid measurements" % t["panic"],
                                {"spec": t["spec"], "step": t["panic"][0]}))
 
     # ---- property oracle on the implementation's raw outputs -----------------------------------------------
@@ -709,6 +708,11 @@ def run(chk):
             chk.broken.append("model evaluation failed: %s" % (traceback.format_exc()[-1500:] if not isinstance(e, RuntimeError) else str(e)[-1500:]))
     else:
         chk.broken.append("model not built: Model/Kalman.vo missing")
+    # a track on which the oracle already reports a violation explains its own model disagreements
+    failing_tids = {tid for tid, _ in oracle_fail}
+    explained = [d for d in disagreements if d.get("tid") in failing_tids]
+    disagreements = [d for d in disagreements if d.get("tid") not in failing_tids]
+    stats["disagreements_on_tracks_with_oracle_failure"] = len(explained)
     chk.log("model: %s; worst error/allowance %s; disagreements %d" % (stats, {k: round(v, 3) for k, v in wr.items()}, len(disagreements)))
 
     nontrivial = set()
@@ -745,6 +749,7 @@ def run(chk):
         "model": stats, "model_worst_error_over_allowance": wr,
         "model_vs_impl_disagreements": len(disagreements),
         "cost_identity_failures": len(ident_fail),
+        "deep_shrink_streams": sum(1 for t in trajs.values() if t.get("kind") == "deep-shrink"),
         "tolerances": {"whole_run_mean": TOL_MEAN, "whole_run_cov": TOL_COV, "exact_short_run_mean": TOLQ_MEAN,
                        "exact_short_run_cov": TOLQ_COV, "one_step": "%g * 2^-24 * sum of magnitudes" % ULPS},
     })
@@ -819,7 +824,7 @@ def model_stage(chk, tracks, cost_by, stats, wr, disagreements):
         if kind == "S":
             stats["scalar_agrees"] += 1
             if v.strip() != "true":
-                disagreements.append({"what": "exact matrix model and exact scalar model differ", "spec": single_spec(tr)})
+                disagreements.append({"what": "exact matrix model and exact scalar model differ", "spec": single_spec(tr), "tid": tr["tid"]})
             continue
         model = decode_case(v, tr["n"], len(tr["states"]), tr["covsteps"], kind)
         if kind == "F":
@@ -836,7 +841,7 @@ def model_stage(chk, tracks, cost_by, stats, wr, disagreements):
             stats["q_states"] += len(model)
         if first is not None:
             disagreements.append({"what": "whole-run %s model vs implementation at step %d: %s" % ("binary64" if kind == "F" else "exact", first[0], first[1]),
-                                  "spec": single_spec(tr, nops=first[0])})
+                                  "spec": single_spec(tr, nops=first[0]), "tid": tr["tid"]})
     # (c) one exact step and one distance from the implementation's own state
     exprs = []
     meta = []
@@ -882,7 +887,7 @@ def model_stage(chk, tracks, cost_by, stats, wr, disagreements):
             stats["dist_probes"] += 1
             if not (r1 <= 1.0 and r2 <= 1.0):
                 disagreements.append({"what": "distance at step %d: implementation %r, exact model %r, binary64 Cholesky model %r" % (k, st["dist"], dq, dchol),
-                                      "spec": single_spec(tr, nops=k)})
+                                      "spec": single_spec(tr, nops=k), "tid": tr["tid"]})
         else:
             exp = step_expect(tr, k)
             if exp is None:
@@ -904,7 +909,7 @@ def model_stage(chk, tracks, cost_by, stats, wr, disagreements):
                     if not r <= 1.0 and bad is None:
                         bad = "cov[%d][%d]: implementation %r, exact model step of the previous state %r" % (i, j, st["cov"][i * N + j], mc[i * N + j])
             if bad is not None:
-                disagreements.append({"what": "one exact model step at step %d: %s" % (k, bad), "spec": single_spec(tr, nops=k)})
+                disagreements.append({"what": "one exact model step at step %d: %s" % (k, bad), "spec": single_spec(tr, nops=k), "tid": tr["tid"]})
     # (d) cost: the model's functions, exact, on every probe
     probes = sorted({db for (ty, db) in cost_by})
     exprs = []
